@@ -346,8 +346,13 @@ static void run_trial(int idx)
 	}
 	if (late_ops == 1) { struct timespec ts = { 0, (long)vf_rnd_range(r, 1000, 300000) }; nanosleep(&ts, NULL); }
 	else if (late_ops == 2 && t->via == VIA_CHANNEL && t->cls <= CL_DIRECTORY && !t->derived) {
-		/* a failed creation posts the cleanup handler at once: wait for it, then use the failed channel */
-		while (!atomic_load(&t->cleanups)) sched_yield();
+		/* a failed creation posts the cleanup handler at once: wait for it, then use the failed channel. Bounded: when the
+		 * descriptor number was used by the previous trial, the library may still hold that trial's registration for it (a failed
+		 * channel keeps its fd_entry until it is deallocated, after its cleanup handler ran) and then creates this channel on the
+		 * stale registration without looking at the descriptor: no error, no early cleanup handler. Recorded, not judged. */
+		uint64_t t0 = vf_now_ns(CLOCK_MONOTONIC);
+		while (!atomic_load(&t->cleanups) && vf_now_ns(CLOCK_MONOTONIC) - t0 < 300000000ull) { struct timespec ts = { 0, 100000 }; nanosleep(&ts, NULL); }
+		if (!atomic_load(&t->cleanups)) vf_count("creations_on_a_stale_registration_of_the_descriptor_number", 1);
 	}
 	for (int i = 0; i < t->nops; i++) {
 		submit(t, &t->ops[i], fd);
